@@ -103,6 +103,31 @@ def nestings(leaves, rnd):
         yield "split", node([node(ls[:cut], "<hi>"), node(ls[cut:], "<lo>")], "<start>")
 
 
+def leaves_of(t):
+    out = []
+    if not t.children:
+        v = t.symbol.value()
+        from fandango.language.tree_value import TreeValueType
+        if v.is_type(TreeValueType.TRAILING_BITS_ONLY):
+            out.append(("bits", str(v.to_bits())))
+        elif v.is_type(TreeValueType.BYTES):
+            out.append(("b", bytes(v)))
+        else:
+            out.append(("s", str(v)))
+        return out
+    for c in t.children:
+        out.extend(leaves_of(c))
+    return out
+
+
+def locally_unaligned(t):
+    """some proper subtree, taken by itself, has a text/bytes leaf after a bit run that is not a multiple of eight"""
+    for c in t.children:
+        if c.children and (not ref_aligned(leaves_of(c)) or locally_unaligned(c)):
+            return True
+    return False
+
+
 def snapshot(t):
     return (t.symbol.format_as_spec(), tuple(snapshot(c) for c in t.children))
 
@@ -126,14 +151,22 @@ def check_leaves(leaves, rnd):
     for shape, tree in nestings(leaves, rnd):
         before = snapshot(tree)
         order = rnd.choice([("bits", "bytes", "str"), ("str", "bits", "bytes"), ("bytes", "str", "bits", "bytes", "str")])
+        local = locally_unaligned(tree)
         got = views_of(tree, order)
         n += 1
+
+        def differs(view, have, want):
+            if isinstance(have, tuple) and have and have[0] == "raises":
+                where = "in_a_tree_with_a_locally_unaligned_subtree" if local else "in_a_tree_whose_subtrees_are_all_aligned"
+                return f"{shape}: {view} raises_{have[1]}_{where}: the leaves spell {want!r}"
+            return f"{shape}: {view} gives_another_value{'_in_a_tree_with_a_locally_unaligned_subtree' if local else ''}: {have!r}, the leaves spell {want!r}"
+
         if got["bits"] != bits:
-            problems.append(f"{shape}: to_bits() gives {got['bits']!r}, the leaves spell {bits!r}")
+            problems.append(differs("to_bits()", got["bits"], bits))
         if by is not None and got["bytes"] != by:
-            problems.append(f"{shape}: bytes() gives {got['bytes']!r}, the leaves spell {by!r}")
+            problems.append(differs("bytes()", got["bytes"], by))
         if st is not None and got["str"] != st:
-            problems.append(f"{shape}: str() gives {got['str']!r}, expected {st!r}")
+            problems.append(differs("str()", got["str"], st))
         again = views_of(tree, ("str", "bytes", "bits"))
         if any(again[k] != got[k] for k in ("str", "bytes", "bits")):
             problems.append(f"{shape}: a second request gives other answers")
@@ -166,7 +199,7 @@ def run(tier="quick", seed=0, pid="C09"):
         if n:
             distinct.add(tuple(leaves))
         for p in probs:
-            kind = p.split(":")[1].split(" gives")[0].strip().replace(" ", "_")[:40]
+            kind = "_".join(p.split(":")[1].strip().split(" ")[:2]).replace("()", "")[:110]
             if kind in reported:
                 continue
             reported.add(kind)
